@@ -1,4 +1,9 @@
-"""C12 — copy: harvested mutable attributes are not shared by reference when the class mutates them in place."""
+"""C12 — copy: harvested mutable attributes are not shared by reference when the class mutates them in place.
+
+The sites are located by what they DO on the normalised code (ctx.view: private helpers expanded, hoisted constants
+substituted) and locals are followed to where their value comes from (_c12_flow.Flow), so that renaming locals, extracting /
+inlining helpers, hoisting the omit lists, aliasing `self.workspace`, reading a getter once into a local, guard clauses or
+conditional expressions do not change a verdict."""
 
 from __future__ import annotations
 
@@ -6,38 +11,133 @@ import ast
 
 from ..model import AnalysisError, unparse
 from ..report import RuleResult
+from ._c12_flow import Flow, argument, call_name, certain_strings, parents
 
 IN_PLACE = {"update", "append", "extend", "insert", "remove", "pop", "clear", "setdefault", "sort", "reverse"}
+COPY_CALLS = ("deepcopy", "copy.deepcopy", "copy.copy", "dict")
+ORDER_KEEPING = ("list", "tuple", "iter")
 
 
-def base_omit(ctx):
-    """omit_list literal of Workspace.copy_to_parent's get_attributes call."""
+# ---------------------------------------------------------------------------------------------- normalised views
+def _flow(ctx, fn, inline=True):
+    """(view, Flow) of a function, cached."""
+    key = ("c12.flow", id(fn.node), inline)
+    if key not in ctx.cache:
+        v = ctx.view(fn, inline=inline) if inline else fn
+        ctx.cache[key] = (v, Flow(v.node))
+    return ctx.cache[key]
+
+
+def _self_attr(e, self_name, names) -> bool:
+    return isinstance(e, ast.Attribute) and isinstance(e.value, ast.Name) and e.value.id == self_name and e.attr in names
+
+
+def _param_index(ctx, module, callee_name, param, default):
+    r = ctx.p.resolve_name(module, callee_name)
+    if r and r[0] == "func" and param in r[1].params:
+        return r[1].params.index(param)
+    return default
+
+
+def _harvests(ctx):
+    """copy_to_parent (normalised), its Flow, the get_attributes calls harvesting the ENTITY and those harvesting its TYPE,
+    and the position of the omit list among get_attributes' parameters."""
+    if "c12.harvests" in ctx.cache:
+        return ctx.cache["c12.harvests"]
     fn = ctx.p.func("Workspace.copy_to_parent")
-    for n in ast.walk(fn.node):
-        if isinstance(n, ast.Call) and unparse(n.func) == "get_attributes":
-            for kw in n.keywords:
-                if kw.arg == "omit_list":
-                    lst = kw.value.left if isinstance(kw.value, ast.BinOp) else kw.value
-                    if isinstance(lst, ast.List):
-                        return {e.value for e in lst.elts if isinstance(e, ast.Constant)}
-    raise AnalysisError("Workspace.copy_to_parent: omit_list of get_attributes not found")
+    v, fl = _flow(ctx, fn)
+    ent = fn.params[1] if len(fn.params) > 1 else None
+    subj_i = _param_index(ctx, fn.module, "get_attributes", "entity", 0)
+    omit_i = _param_index(ctx, fn.module, "get_attributes", "omit_list", 1)
+    ent_calls, type_calls = [], []
+    for n in ast.walk(v.node):
+        if isinstance(n, ast.Call) and call_name(n) == "get_attributes":
+            subject = argument(n, subj_i, "entity")
+            for o in fl.origins(subject):
+                if isinstance(o, ast.Name) and o.id == ent and n not in ent_calls:
+                    ent_calls.append(n)
+                elif isinstance(o, ast.Attribute) and o.attr == "entity_type" and fl.is_param(o.value, ent) and n not in type_calls:
+                    type_calls.append(n)
+    ctx.cache["c12.harvests"] = (fn, v, fl, ent_calls, type_calls, omit_i)
+    return ctx.cache["c12.harvests"]
+
+
+def _dict_stores(fl: Flow, root, calls):
+    """(key, value expr, statement) for every store of a constant key into a dict that may be the result of one of `calls`:
+    d[k] = v, d.update(k=v), d.update({k: v}), d.__setitem__(k, v)."""
+    def is_h(e):
+        return any(fl.holds_entries_of(e, c) for c in calls)
+
+    for n in ast.walk(root):
+        if isinstance(n, (ast.Assign, ast.AnnAssign)) and n.value is not None:
+            for t in (n.targets if isinstance(n, ast.Assign) else [n.target]):
+                if isinstance(t, ast.Subscript) and isinstance(t.slice, ast.Constant) and is_h(t.value):
+                    yield t.slice.value, n.value, n
+        elif isinstance(n, ast.Call) and isinstance(n.func, ast.Attribute) and is_h(n.func.value):
+            if n.func.attr == "update":
+                for k in n.keywords:
+                    if k.arg is not None:
+                        yield k.arg, k.value, n
+                for a in n.args:
+                    if isinstance(a, ast.Dict):
+                        for k, val in zip(a.keys, a.values):
+                            if isinstance(k, ast.Constant):
+                                yield k.value, val, n
+            elif n.func.attr == "__setitem__" and len(n.args) == 2 and isinstance(n.args[0], ast.Constant):
+                yield n.args[0].value, n.args[1], n
+
+
+def _entry_read(fl: Flow, e, calls, key=None) -> bool:
+    """e reads an entry (of constant key `key`, or any) out of one of the harvested dicts: d[k], d.get(k), d.pop(k)."""
+    def is_h(x):
+        return any(fl.holds_entries_of(x, c) for c in calls)
+
+    if isinstance(e, ast.Subscript) and is_h(e.value):
+        return key is None or (isinstance(e.slice, ast.Constant) and e.slice.value == key)
+    if isinstance(e, ast.Call) and isinstance(e.func, ast.Attribute) and e.func.attr in ("get", "pop", "__getitem__") and e.args and is_h(e.func.value):
+        return key is None or (isinstance(e.args[0], ast.Constant) and e.args[0].value == key)
+    return False
+
+
+def _is_copy_call(e) -> bool:
+    return isinstance(e, ast.Call) and (unparse(e.func) in COPY_CALLS or (isinstance(e.func, ast.Attribute) and e.func.attr in ("copy", "deepcopy")))
+
+
+# ---------------------------------------------------------------------------------------------- omit lists
+def base_omit(ctx):
+    """Fields that the entity harvest of Workspace.copy_to_parent certainly omits (whatever the caller adds)."""
+    fn, v, fl, ent_calls, _type_calls, omit_i = _harvests(ctx)
+    if not ent_calls:
+        raise AnalysisError("Workspace.copy_to_parent: omit_list of get_attributes not found")
+    sets = [certain_strings(argument(c, omit_i, "omit_list"), ctx.p, fn.module, fn.cls, fl) for c in ent_calls]
+    return set.intersection(*sets)
 
 
 def copied_on_harvest(ctx):
     """Keys of the harvested kwargs that copy_to_parent re-binds to a (deep) copy before constructing the new entity."""
-    fn = ctx.p.func("Workspace.copy_to_parent")
+    _fn, v, fl, ent_calls, _type_calls, _ = _harvests(ctx)
     out = set()
-    for n in ast.walk(fn.node):
-        if isinstance(n, ast.Assign) and len(n.targets) == 1 and isinstance(n.targets[0], ast.Subscript) and isinstance(n.targets[0].slice, ast.Constant):
-            v = n.value
-            if isinstance(v, ast.Call) and (unparse(v.func) in ("deepcopy", "copy.deepcopy", "copy.copy", "dict") or (isinstance(v.func, ast.Attribute) and v.func.attr == "copy")):
-                if unparse(n.targets[0].value) in unparse(v):
-                    out.add(n.targets[0].slice.value)
+    for key, val, _st in _dict_stores(fl, v.node, ent_calls):
+        for o in fl.origins_at(val):
+            if _is_copy_call(o):
+                src = list(o.args) + ([o.func.value] if isinstance(o.func, ast.Attribute) and o.func.attr == "copy" else [])
+                if any(_entry_read(fl, s, ent_calls, key) for a in src for s in fl.origins_at(a)):
+                    out.add(key)
     return out
 
 
+def _omit_sites(ctx, fn):
+    """[(call, certain strings)] for every call of the (normalised) function that hands over an omit_list."""
+    key = ("c12.omit", id(fn.node))
+    if key not in ctx.cache:
+        v, fl = _flow(ctx, fn)
+        ctx.cache[key] = [(n, certain_strings(k.value, ctx.p, fn.module, fn.cls, fl))
+                          for n in ast.walk(v.node) if isinstance(n, ast.Call) for k in n.keywords if k.arg == "omit_list"]
+    return ctx.cache[key]
+
+
 def class_omit(ctx, K):
-    """omit_list constants handed along K's copy chain (list literals or module constants named in copy())."""
+    """omit_list constants handed along K's copy chain (literals, hoisted constants, locals, sums of those)."""
     out = set()
     for c in K.mro:
         if isinstance(c, str):
@@ -45,25 +145,12 @@ def class_omit(ctx, K):
         fn = c.methods.get("copy")
         if fn is None:
             continue
-        for n in ast.walk(fn.node):
-            lists = []
-            if isinstance(n, ast.keyword) and n.arg == "omit_list":
-                lists.append(n.value)
-            # a local holding the list that is later passed as omit_list=<local> (whatever the local is called)
-            passed = {unparse(k.value) for k in ast.walk(fn.node) if isinstance(k, ast.keyword) and k.arg == "omit_list" and isinstance(k.value, ast.Name)}
-            if isinstance(n, ast.Assign) and any(isinstance(t, ast.Name) and t.id in passed for t in n.targets):
-                lists.append(n.value)
-            for v in lists:
-                if isinstance(v, ast.Name):
-                    r = ctx.p.resolve_name(fn.module, v.id)
-                    if r and r[0] == "assign":
-                        v = r[1][1]
-                if isinstance(v, (ast.List, ast.Tuple)):
-                    out |= {e.value for e in v.elts if isinstance(e, ast.Constant)}
+        for _call, strings in _omit_sites(ctx, fn):
+            out |= strings
     return out
 
 
-def init_fields(K):
+def init_fields(K, ctx=None):
     out = set()
     for c in K.mro:
         if isinstance(c, str):
@@ -71,10 +158,62 @@ def init_fields(K):
         fn = c.methods.get("__init__")
         if fn is None:
             continue
-        for n in ast.walk(fn.node):
-            if isinstance(n, ast.Attribute) and isinstance(n.ctx, ast.Store) and isinstance(n.value, ast.Name) and n.value.id == "self" and n.attr.startswith("_"):
+        node = _flow(ctx, fn)[0].node if ctx is not None else fn.node
+        me = fn.self_name or "self"
+        for n in ast.walk(node):
+            if isinstance(n, ast.Attribute) and isinstance(n.ctx, ast.Store) and isinstance(n.value, ast.Name) and n.value.id == me and n.attr.startswith("_"):
                 out.add(n.attr)
     return out
+
+
+# ---------------------------------------------------------------------------------------------- ALIAS
+def _mutations(ctx, fn):
+    """(direct, indirect): field / property name -> [description] of the in-place edits a member function makes.
+    direct: on the object stored in `self.<field>` itself (also through a local alias of it);
+    indirect: on an entry nested in it, or through the property of the same name (`self.<prop>[k].append(..)`)."""
+    key = ("c12.mut", id(fn.node))
+    if key in ctx.cache:
+        return ctx.cache[key]
+    direct: dict = {}
+    indirect: dict = {}
+    me = fn.self_name
+    if me is not None:
+        fl = None
+
+        def strip(e):
+            depth = 0
+            while isinstance(e, ast.Subscript):
+                e, depth = e.value, depth + 1
+            return e, depth
+
+        def targets(e):
+            """[(attribute of self, nested?)] the receiver may stand for"""
+            nonlocal fl
+            e, depth = strip(e)
+            if isinstance(e, ast.Attribute):
+                return [(e, depth > 0)] if isinstance(e.value, ast.Name) and e.value.id == me else []
+            if isinstance(e, ast.Name):
+                if fl is None:
+                    fl = Flow(fn.node)
+                res = []
+                for o in fl.origins(e):
+                    o, d2 = strip(o)
+                    if isinstance(o, ast.Attribute) and isinstance(o.value, ast.Name) and o.value.id == me:
+                        res.append((o, depth + d2 > 0))
+                return res
+            return []
+
+        for n in ast.walk(fn.node):
+            recv = None
+            if isinstance(n, ast.Call) and isinstance(n.func, ast.Attribute) and n.func.attr in IN_PLACE:
+                recv = n.func.value
+            elif isinstance(n, ast.Subscript) and isinstance(n.ctx, (ast.Store, ast.Del)):
+                recv = n.value
+            if recv is not None:
+                for t, nested in targets(recv):
+                    (indirect if nested or not t.attr.startswith("_") else direct).setdefault(t.attr, []).append(f"{fn.qualname}:{n.lineno} {unparse(n)[:40]}")
+    ctx.cache[key] = (direct, indirect)
+    return ctx.cache[key]
 
 
 def rule_alias(ctx) -> RuleResult:
@@ -91,34 +230,33 @@ def rule_alias(ctx) -> RuleResult:
     omit0 = base_omit(ctx)
     copied = copied_on_harvest(ctx)
     n_fields = 0
+    noted: set = set()
     for K in p.subclasses(ent):
         omit = omit0 | class_omit(ctx, K)
-        for f in sorted(init_fields(K) - omit):
+        for f in sorted(init_fields(K, ctx) - omit):
             prop = f[1:]
             m = K.lookup(prop)
             if not m or m[1] != "prop" or m[2].getter is None or m[2].setter is None:
                 continue
             g, s = m[2].getter, m[2].setter
             n_fields += 1
-            returns_self = any(isinstance(r, ast.Return) and _may_be_field(r.value, f, g) for r in ast.walk(g.node))
+            gv, gfl = _flow(ctx, g)
+            returns_self = any(isinstance(r, ast.Return) and _may_be_field(r.value, f, g, gfl) for r in ast.walk(gv.node))
+            sv, sfl = _flow(ctx, s)
             arg = s.params[1] if len(s.params) > 1 else None
-            by_ref = any(
-                isinstance(a, ast.Assign) and any(unparse(t) == f"self.{f}" for t in a.targets) and isinstance(a.value, ast.Name) and a.value.id == arg
-                and not _rebound(s, arg)
-                for a in ast.walk(s.node)
-            )
-            mutators = []
+            by_ref = arg is not None and any(_stores_param(a, f, s, sfl, arg) for a in ast.walk(sv.node))
+            mutators, deep = [], []
             for c in K.mro:
                 if isinstance(c, str):
                     continue
                 members = list(c.methods.values()) + [x for pr in c.props.values() for x in (pr.getter, pr.setter) if x is not None and x.cls is c]
                 for fn in members:
-                    for n in ast.walk(fn.node):
-                        if isinstance(n, ast.Call) and isinstance(n.func, ast.Attribute) and n.func.attr in IN_PLACE and unparse(n.func.value) == f"self.{f}":
-                            mutators.append(f"{fn.qualname}:{n.lineno} {unparse(n)[:40]}")
-                        if isinstance(n, ast.Subscript) and isinstance(n.ctx, (ast.Store, ast.Del)) and unparse(n.value) == f"self.{f}":
-                            mutators.append(f"{fn.qualname}:{n.lineno} {unparse(n)[:40]}")
+                    direct, indirect = _mutations(ctx, fn)
+                    mutators += direct.get(f, [])
+                    deep += indirect.get(f, []) + indirect.get(prop, [])
             shared = returns_self and by_ref and bool(mutators) and prop not in copied
+            if returns_self and by_ref and deep and not mutators and prop not in copied and s.cls.name + "." + prop not in noted:
+                noted.add(s.cls.name + "." + prop)
             res.inst(f"{K.name}.{prop}: returns-stored={returns_self} stores-by-ref={by_ref} in-place-mutators={len(mutators)}",
                      nontrivial=returns_self and by_ref, ok=not shared)
             if shared:
@@ -127,9 +265,121 @@ def rule_alias(ctx) -> RuleResult:
                          f"{mutators[0]} edits it in place: an edit of the copy's {prop} shows in the source",
                          resolved_on=K.name, mutators=mutators[:3])
     res.notes.append(f"omit list of copy_to_parent: {sorted(omit0)}; copied on harvest: {sorted(copied)}")
+    if noted:
+        res.notes.append("not decided here (harvested, returned and stored by reference, edited only in nested entries or through the property): " + ", ".join(sorted(noted)))
     if n_fields < 300:
         raise AnalysisError(f"C12.ALIAS: only {n_fields} harvested (class, field) pairs found")
     return res
+
+
+def _may_be_field(e, f, g, fl: Flow | None = None) -> bool:
+    """The expression may evaluate to the very object stored in self.<f>."""
+    if e is None:
+        return False
+    fl = fl or Flow(g.node)
+    me = g.self_name or "self"
+    return any(_self_attr(o, me, (f,)) for o in fl.origins(e))
+
+
+def _stores_param(a, f, s, fl: Flow, arg) -> bool:
+    """Statement `a` stores the setter's argument itself (possibly through aliases, never converted on the way) into self.<f>."""
+    if not (isinstance(a, (ast.Assign, ast.AnnAssign)) and a.value is not None):
+        return False
+    me = s.self_name or "self"
+    tgs = a.targets if isinstance(a, ast.Assign) else [a.target]
+    if not any(_self_attr(t, me, (f,)) for t in tgs):
+        return False
+    if not fl.is_param(a.value, arg):
+        return False
+    return not any(_rebound(s, nm, fl.node) for nm in fl.names_on_the_way(a.value) | {arg})
+
+
+def _rebound(fn, name, node=None) -> bool:
+    """The parameter is re-assigned (converted / copied) before being stored."""
+    for n in ast.walk(node if node is not None else fn.node):
+        if isinstance(n, ast.Assign) and any(isinstance(t, ast.Name) and t.id == name for t in n.targets):
+            v = unparse(n.value)
+            if any(tok in v for tok in ("copy(", "deepcopy(", "dict(", "list(", "np.asarray", "np.array", "np.r_", ".astype", "tolist")):
+                return True
+    return False
+
+
+# ---------------------------------------------------------------------------------------------- SHAPE
+def _annotation_names(ann) -> set:
+    return {n.id for n in ast.walk(ann) if isinstance(n, ast.Name)} | {n.attr for n in ast.walk(ann) if isinstance(n, ast.Attribute)} | {
+        x for n in ast.walk(ann) if isinstance(n, ast.Constant) and isinstance(n.value, str) for x in n.value.replace("|", " ").replace("[", " ").replace("]", " ").replace(",", " ").split()}
+
+
+def _unwrap_order_keeping(e):
+    while isinstance(e, ast.Call) and isinstance(e.func, ast.Name) and e.func.id in ORDER_KEEPING and len(e.args) == 1 and not e.keywords:
+        e = e.args[0]
+    return e
+
+
+def _empty_literal(e) -> bool:
+    return (isinstance(e, (ast.List, ast.Tuple)) and not e.elts) or (isinstance(e, ast.Call) and isinstance(e.func, ast.Name) and e.func.id in ("list", "tuple") and not e.args)
+
+
+def _remap_sites(fl: Flow, root, dmap, groups):
+    """Iterations that look members up in the uid map: [(iter expr, filtered?, line)].  The site is found from the USE of the
+    map (subscript, .get, .items(), `in`), going out to the innermost comprehension / map() / for loop around it; a use
+    directly in the loop over the property groups themselves is not a member remapping."""
+    par = parents(root)
+    sites, seen = [], set()
+
+    def use_of_map(n):
+        if not (isinstance(n, ast.Name) and isinstance(n.ctx, ast.Load) and fl.is_param(n, dmap)):
+            return False
+        up = par.get(n)
+        if isinstance(up, (ast.Assign, ast.AnnAssign, ast.NamedExpr)) and up.value is n:
+            return False  # an alias of the map (also: the parameter binding of an expanded helper)
+        if isinstance(up, ast.Call) and (n in up.args or any(k.value is n for k in up.keywords)) and call_name(up) not in ("map", "sorted", "list", "tuple", "iter", "set", "dict", "enumerate", "zip"):
+            return False  # handed to another function as a whole
+        if isinstance(up, ast.keyword):
+            return False
+        return True
+
+    for n in ast.walk(root):
+        if not use_of_map(n):
+            continue
+        cur, child = par.get(n), n
+        conditional = False  # the use sits in a branch / handler inside the iteration: not every member gets mapped
+        while cur is not None:
+            site = None
+            if isinstance(cur, (ast.ListComp, ast.SetComp, ast.GeneratorExp, ast.DictComp)):
+                gens = cur.generators
+                filtered = len(gens) != 1 or any(g.ifs for g in gens) or isinstance(cur, (ast.SetComp, ast.DictComp))
+                site = (gens[0].iter, filtered, cur)
+            elif isinstance(cur, ast.Call) and call_name(cur) == "map" and len(cur.args) >= 2 and child is cur.args[0]:
+                site = (cur.args[1], len(cur.args) != 2, cur)
+            elif isinstance(cur, ast.Call) and call_name(cur) == "filter":
+                site = (cur.args[-1], True, cur)
+            elif isinstance(cur, (ast.For, ast.AsyncFor)) and child is not cur.iter and child is not cur.target:
+                if any(fl.is_param(o, groups) for o in fl.origins(_unwrap_order_keeping(cur.iter))):
+                    break  # the loop over the groups
+                jumps = any(isinstance(x, (ast.Continue, ast.Break)) for st in cur.body for x in ast.walk(st))
+                site = (cur.iter, conditional or child not in cur.body or jumps, cur)
+            elif isinstance(cur, (ast.For, ast.AsyncFor)) and child is cur.iter:
+                site = (cur.iter, False, cur)  # iterating the map itself
+            if site is not None:
+                if id(site[2]) not in seen:
+                    seen.add(id(site[2]))
+                    sites.append((site[0], site[1], getattr(site[2], "lineno", getattr(n, "lineno", 0))))
+                break
+            if isinstance(cur, (ast.If, ast.While, ast.Try, ast.ExceptHandler)) or (hasattr(ast, "Match") and isinstance(cur, ast.Match)):
+                conditional = True
+            cur, child = par.get(cur), cur
+    return sites
+
+
+def _is_child(fl: Flow, e) -> bool:
+    """e may be an element of an iteration over something computed from a `.children` attribute."""
+    return any(isinstance(o, ast.Name) and o.id in fl.loops and any(fl.mentions_attr(i, "children") for i in fl.iterated_over(o.id))
+               for o in fl.origins(e))
+
+
+def _is_super(e) -> bool:
+    return isinstance(e, ast.Call) and isinstance(e.func, ast.Name) and e.func.id == "super"
 
 
 def rule_shape(ctx) -> RuleResult:
@@ -140,14 +390,15 @@ def rule_shape(ctx) -> RuleResult:
         "source's child); (b) copy_property_groups remaps the members in the source group's own order; (c) the recursive "
         "child.copy(...) calls of the copy methods do not forward the caller's **kwargs (overrides meant for the copied "
         "entity would leak into its whole subtree); (d) mutable helper objects held by the entity type (colour map, value map) "
-        "are re-created, not shared, when copy_to_parent builds the type of the copy",
+        "are re-created, not shared, when copy_to_parent builds the type of the copy; (e) a partner entity copied along "
+        "(copy_complement) is rebuilt with at least the omissions of the entity's own copy",
         floor=10,
     )
     p = ctx.p
     ent = p.cls("Entity")
     omit0 = base_omit(ctx)
     fam = {c.name for c in p.subclasses(ent)}
-    # (a) fields annotated with an entity class in __init__
+    # (a) fields annotated with an entity class in __init__ (or a private helper of it)
     seen = set()
     for K in p.subclasses(ent):
         omit = omit0 | class_omit(ctx, K)
@@ -157,11 +408,10 @@ def rule_shape(ctx) -> RuleResult:
             fn = c.methods.get("__init__")
             if fn is None or (fn, K.name) in seen:
                 continue
-            for a in ast.walk(fn.node):
-                if isinstance(a, ast.AnnAssign) and isinstance(a.target, ast.Attribute) and unparse(a.target.value) == "self":
-                    names = {n.id for n in ast.walk(a.annotation) if isinstance(n, ast.Name)} | {
-                        x for n in ast.walk(a.annotation) if isinstance(n, ast.Constant) and isinstance(n.value, str) for x in n.value.replace("|", " ").split()}
-                    ents = sorted(names & fam)
+            me = fn.self_name or "self"
+            for a in ast.walk(_flow(ctx, fn)[0].node):
+                if isinstance(a, ast.AnnAssign) and isinstance(a.target, ast.Attribute) and isinstance(a.target.value, ast.Name) and a.target.value.id == me:
+                    ents = sorted(_annotation_names(a.annotation) & fam)
                     if not ents:
                         continue
                     fld = a.target.attr
@@ -178,61 +428,81 @@ def rule_shape(ctx) -> RuleResult:
                         res.find(c.name, prop, f"entity-valued field {fld} is harvested by copy_to_parent", fn.where,
                                  f"the copy's constructor receives the source's {ents[0]} object: the copy references a child of the source, and "
                                  "editing it through the copy rewrites the source's stored data")
-    # (b) property-group remapping order
+    # (b) property-group remapping order: every iteration that looks members up in the uid map (the last parameter) walks the
+    # source group's own `.properties`, unfiltered
     cpg = p.func("Workspace.copy_property_groups")
-    # the remapping: the list comprehension whose elements are looked up in the uid map (the function's last parameter)
-    dmap = cpg.params[-1]
-    # ... i.e. the local that becomes the "properties" entry of the new group's keyword arguments
-    prop_locals = {unparse(v) for d in ast.walk(cpg.node) if isinstance(d, ast.Dict) for k, v in zip(d.keys, d.values)
-                   if isinstance(k, ast.Constant) and k.value == "properties" and isinstance(v, ast.Name)}
-    prop_locals |= {unparse(k.value) for k in ast.walk(cpg.node) if isinstance(k, ast.keyword) and k.arg == "properties" and isinstance(k.value, ast.Name)}
-    comps = [a for a in ast.walk(cpg.node) if isinstance(a, ast.Assign) and isinstance(a.value, ast.ListComp) and unparse(a.targets[0]) in prop_locals
-             and any(isinstance(x, ast.Name) and x.id == dmap for x in ast.walk(a.value))]
-    if not comps:
+    cv, cfl = _flow(ctx, cpg)
+    if len(cpg.params) < 3:
+        raise AnalysisError("Workspace.copy_property_groups: parameters (entity, property_groups, data_map) not found")
+    dmap, groups = cpg.params[-1], cpg.params[-2]
+    sites = _remap_sites(cfl, cv.node, dmap, groups)
+    if not sites:
         raise AnalysisError("Workspace.copy_property_groups: remapping comprehension not found")
-    for a in comps:
-        gen = a.value.generators[0]
-        ok = unparse(gen.iter).endswith(".properties") and not gen.ifs
-        res.inst(f"copy_property_groups: members remapped by iterating {unparse(gen.iter)}", nontrivial=True, ok=ok)
+    for it, filtered, lineno in sites:
+        srcs = [_unwrap_order_keeping(o) for o in cfl.origins_at(_unwrap_order_keeping(it))]
+        in_order = bool(srcs) and all((isinstance(o, ast.Attribute) and o.attr == "properties") or _empty_literal(o) for o in srcs) \
+            and any(isinstance(o, ast.Attribute) for o in srcs)
+        ok = in_order and not filtered
+        txt = cfl.text(it, fs=True)
+        res.inst(f"copy_property_groups: members remapped by iterating {txt}", nontrivial=True, ok=ok)
         if not ok:
-            res.find("Workspace", "copy_property_groups", f"members remapped by iterating {unparse(gen.iter)[:40]}", f"{cpg.module.relpath}:{a.lineno}",
+            res.find("Workspace", "copy_property_groups", f"members remapped by iterating {txt[:40]}", f"{cpg.module.relpath}:{lineno}",
                      "the copied property group lists its members in the order of the uid map, not in the source group's order: ordered groups "
                      "(dip direction & dip, 3-D vectors) come out permuted")
-    # (c) kwargs leak
+    # (c) kwargs leak: no call made for a child of the copied entity receives the caller's **kwargs (followed into private helpers
+    # that receive them wholesale — those are not expanded by the normaliser)
     done = set()
+    work = []
     for K in p.subclasses(ent):
         fn = K.methods.get("copy")
-        if fn is None or fn in done or fn.node.args.kwarg is None:
+        if fn is not None and fn.node.args.kwarg is not None:
+            work.append((fn, fn))
+    while work:
+        fn, top = work.pop(0)
+        if fn in done:
             continue
         done.add(fn)
         kw = fn.node.args.kwarg.arg
-        for lp in [x for x in ast.walk(fn.node) if isinstance(x, ast.For) and "children" in unparse(x.iter)]:
-            var = unparse(lp.target)
-            for c in ast.walk(lp):
-                if isinstance(c, ast.Call) and isinstance(c.func, ast.Attribute) and c.func.attr in ("copy", "copy_from_extent") and unparse(c.func.value) == var:
-                    leak = any(k.arg is None and unparse(k.value) == kw for k in c.keywords)
-                    res.inst(f"{fn.qualname}:{c.lineno} {var}.{c.func.attr}(...) forwards **{kw}: {leak}", nontrivial=True, ok=not leak)
-                    if leak:
-                        res.find(fn.cls.name, "copy", f"{var}.{c.func.attr}(...) receives the caller's **{kw}", f"{fn.module.relpath}:{c.lineno}",
-                                 "attribute overrides given for the copied entity (name=..., public=...) are applied to every descendant as well: the "
-                                 "subtree is not reproduced")
+        fv, ffl = _flow(ctx, fn)
+
+        def is_child(e, ffl=ffl):
+            return _is_child(ffl, e)
+
+        for c in ast.walk(fv.node):
+            if not isinstance(c, ast.Call):
+                continue
+            leak = any(k.arg is None and ffl.is_param(k.value, kw) for k in c.keywords)
+            nm = call_name(c)
+            if leak and nm and nm.startswith("_") and not nm.startswith("__") and isinstance(c.func, ast.Attribute) and isinstance(c.func.value, ast.Name) \
+                    and c.func.value.id in (fn.self_name, "cls") and fn.cls is not None:
+                m = fn.cls.lookup(nm)
+                if m and m[1] == "method" and m[2].node.args.kwarg is not None:
+                    work.append((m[2], top))
+            on_child = isinstance(c.func, ast.Attribute) and is_child(c.func.value)
+            with_child = on_child or any(is_child(a) for a in c.args if isinstance(a, ast.Name)) or any(is_child(k.value) for k in c.keywords if isinstance(k.value, ast.Name))
+            if not with_child:
+                continue
+            copies = on_child and c.func.attr in ("copy", "copy_from_extent")
+            if not (copies or leak):
+                continue
+            what = f"<child>.{c.func.attr}(...)" if on_child else f"{nm}(<child>, ...)"
+            res.inst(f"{fn.qualname}:{c.lineno} {what} forwards the caller's keyword overrides: {leak}", nontrivial=True, ok=not leak)
+            if leak:
+                res.find(top.cls.name, top.name, f"{what} receives the caller's keyword overrides", f"{fn.module.relpath}:{c.lineno}",
+                         "attribute overrides given for the copied entity (name=..., public=...) are applied to every descendant as well: the "
+                         "subtree is not reproduced")
     # (d) mutable helper objects of the entity TYPE (colour map, value map) are re-created for the copy's type
     ety = p.cls("EntityType")
-    ctp = p.func("Workspace.copy_to_parent")
-    tk = None
-    type_omit = set()
-    for a in ast.walk(ctp.node):
-        if isinstance(a, ast.Assign) and isinstance(a.value, ast.Call) and getattr(a.value.func, "id", None) == "get_attributes" and a.value.args \
-                and unparse(a.value.args[0]).endswith(".entity_type") and isinstance(a.targets[0], ast.Name):
-            tk = a.targets[0].id
-            for k in a.value.keywords:
-                if k.arg == "omit_list":
-                    type_omit |= {c.value for c in ast.walk(k.value) if isinstance(c, ast.Constant) and isinstance(c.value, str)}
-    if tk is None:
+    ctp, tv, tfl, ent_calls, type_calls, omit_i = _harvests(ctx)
+    if not type_calls:
         raise AnalysisError("Workspace.copy_to_parent: harvest of entity.entity_type not found")
-    recreated = {a.targets[0].slice.value for a in ast.walk(ctp.node) if isinstance(a, ast.Assign) and isinstance(a.targets[0], ast.Subscript)
-                 and unparse(a.targets[0].value) == tk and isinstance(a.targets[0].slice, ast.Constant)
-                 and not (isinstance(a.value, ast.Name) or unparse(a.value).startswith(f"{tk}"))}
+    type_omit = set.intersection(*[certain_strings(argument(c, omit_i, "omit_list"), p, ctp.module, ctp.cls, tfl) for c in type_calls])
+    recreated = set()
+    for key, val, _st in _dict_stores(tfl, tv.node, type_calls):
+        os_ = tfl.origins_at(val)
+        # the stored value is built anew: it is neither a value that came in from outside nor an entry of a harvested dict
+        if os_ and not any(isinstance(o, ast.Name) or _entry_read(tfl, o, type_calls + ent_calls) for o in os_):
+            recreated.add(key)
     type_fam = {c.name for c in p.subclasses(ety)}
 
     def mutable_helper(name):
@@ -252,8 +522,9 @@ def rule_shape(ctx) -> RuleResult:
             seen_t.add(c.name)
             fns = list(c.methods.values()) + [f for pr in c.props.values() for f in (pr.getter, pr.setter) if f is not None and f.cls is c]
             for fn in fns:
+                me = fn.self_name or "self"
                 for a in ast.walk(fn.node):
-                    if isinstance(a, ast.AnnAssign) and isinstance(a.target, ast.Attribute) and unparse(a.target.value) == "self":
+                    if isinstance(a, ast.AnnAssign) and isinstance(a.target, ast.Attribute) and isinstance(a.target.value, ast.Name) and a.target.value.id == me:
                         names = {n.id for n in ast.walk(a.annotation) if isinstance(n, ast.Name)}
                         helpers = sorted(n for n in names if mutable_helper(n))
                         if not helpers:
@@ -268,35 +539,42 @@ def rule_shape(ctx) -> RuleResult:
                             res.find(c.name, fld.lstrip("_"), f"type field {fld} ({helpers[0]}) is handed to the copy's type as the same object", f"{ctp.module.relpath}:{ctp.node.lineno}",
                                      f"a type created for the copy (other workspace) shares the source type's {helpers[0]}: editing the copy's {fld.lstrip('_')} "
                                      "changes the source's, and helpers that point back to their type are re-pointed to the copy's type")
+    # (e) a partner copied along with the entity is rebuilt with (at least) the omissions of the entity's own copy
+    # (private helpers are seen expanded inside their callers; copies of CHILDREN are not partner copies)
+    done_e = set()
+    for K in p.subclasses(ent):
+        own_copy = next((c.methods["copy"] for c in K.mro if not isinstance(c, str) and "copy" in c.methods and _omit_sites(ctx, c.methods["copy"])), None)
+        if own_copy is None:
+            continue
+        own_sites = _omit_sites(ctx, own_copy)
+        upward = [st for call, st in own_sites if isinstance(call.func, ast.Attribute) and _is_super(call.func.value) and not call.func.value.args]
+        wanted = set.intersection(*(upward or [st for _c, st in own_sites]))
+        for c in K.mro:
+            if isinstance(c, str):
+                continue
+            for fn in c.methods.values():
+                if fn.name == "copy" or fn.name.startswith("_") or (fn, own_copy) in done_e:
+                    continue
+                done_e.add((fn, own_copy))
+                sites_e = _omit_sites(ctx, fn)
+                if not sites_e:
+                    continue
+                efl = _flow(ctx, fn)[1]
+                for call, strings in sites_e:
+                    if call_name(call) not in ("copy", "_super_copy", "copy_to_parent", "copy_from_extent"):
+                        continue
+                    if isinstance(call.func, ast.Attribute) and _is_child(efl, call.func.value):
+                        continue
+                    missing = sorted(wanted - strings)
+                    res.inst(f"{fn.qualname}:{call.lineno} copies a partner omitting what {own_copy.qualname} omits: {not missing}", nontrivial=True, ok=not missing)
+                    if missing:
+                        res.find(fn.cls.name, fn.name, f"partner copied with fields that {own_copy.qualname} keeps out: {', '.join(missing)}", f"{fn.module.relpath}:{call.lineno}",
+                                 f"the partner's copy is constructed from the source partner's {', '.join(missing)} although the entity's own copy is not: "
+                                 "the two copies are not rebuilt alike, the partner's copy keeps state (links, metadata) of the originals")
     return res
 
 
-def _may_be_field(e, f, g) -> bool:
-    """The expression may evaluate to the very object stored in self.<f>."""
-    if e is None:
-        return False
-    if unparse(e) == f"self.{f}":
-        return True
-    if isinstance(e, ast.BoolOp):
-        return any(_may_be_field(v, f, g) for v in e.values)
-    if isinstance(e, ast.IfExp):
-        return _may_be_field(e.body, f, g) or _may_be_field(e.orelse, f, g)
-    if isinstance(e, ast.Name):
-        return any(isinstance(a, ast.Assign) and any(isinstance(t, ast.Name) and t.id == e.id for t in a.targets) and _may_be_field(a.value, f, g)
-                   for a in ast.walk(g.node))
-    return False
-
-
-def _rebound(fn, name) -> bool:
-    """The parameter is re-assigned (converted / copied) before being stored."""
-    for n in ast.walk(fn.node):
-        if isinstance(n, ast.Assign) and any(isinstance(t, ast.Name) and t.id == name for t in n.targets):
-            v = unparse(n.value)
-            if any(tok in v for tok in ("copy(", "deepcopy(", "dict(", "list(", "np.asarray", "np.array", "np.r_", ".astype", "tolist")):
-                return True
-    return False
-
-
+# ---------------------------------------------------------------------------------------------- FRESH
 def rule_fresh(ctx) -> RuleResult:
     res = RuleResult(
         "C12.FRESH",
@@ -315,25 +593,59 @@ def rule_fresh(ctx) -> RuleResult:
         if fn is None or fn in seen:
             continue
         seen.add(fn)
-        for r in [x for x in ast.walk(fn.node) if isinstance(x, ast.Return) and x.value is not None]:
-            ok = is_fresh(r.value)
-            res.inst(f"{K.name}.format_type returns {unparse(r.value)[:50]} (fresh: {ok})", nontrivial=True, ok=ok)
+        fv, ffl = _flow(ctx, fn)
+        for r in [x for x in ast.walk(fv.node) if isinstance(x, ast.Return) and x.value is not None]:
+            os_ = ffl.origins_at(r.value, skip_none=False)
+            ok = bool(os_) and all(is_fresh(o) for o in os_)
+            txt = ffl.text(r.value, fs=True)
+            res.inst(f"{K.name}.format_type returns {txt[:50]} (fresh: {ok})", nontrivial=True, ok=ok)
             if not ok:
-                res.find(K.name, "format_type", f"returns {unparse(r.value)[:50]}, which may be the caller's array itself", f"{fn.module.relpath}:{r.lineno}",
+                res.find(K.name, "format_type", f"returns {txt[:50]}, which may be the caller's array itself", f"{fn.module.relpath}:{r.lineno}",
                          "the values setter stores the very array it was handed: a copy made from the source's values shares its buffer, and an "
                          "in-place edit of the copy's values silently changes the source")
-    st = p.cls("NumericData").props["values"].setter
-    ok = any(isinstance(a, ast.Assign) and unparse(a.targets[0]) == "self._values" and unparse(a.value).startswith("self.format_values(") for a in ast.walk(st.node))
+    nd = p.cls("NumericData")
+    st = nd.props["values"].setter
+    sv, sfl = _flow(ctx, st)
+    me = st.self_name or "self"
+
+    def formats(e, name, fl, me):
+        return isinstance(e, ast.Call) and isinstance(e.func, ast.Attribute) and e.func.attr == name and isinstance(e.func.value, ast.Name) and e.func.value.id == me
+
+    stores = [a for a in ast.walk(sv.node) if isinstance(a, (ast.Assign, ast.AnnAssign)) and a.value is not None
+              and any(_self_attr(t, me, ("_values",)) for t in (a.targets if isinstance(a, ast.Assign) else [a.target]))]
+    ok = bool(stores) and any(any(formats(o, "format_values", sfl, me) for o in sfl.origins_at(a.value)) for a in stores) \
+        and all(all(formats(o, "format_values", sfl, me) for o in sfl.origins_at(a.value)) for a in stores)
     res.inst("NumericData.values setter stores format_values(...) (which ends in format_type)", ok=ok)
     if not ok:
         res.find("NumericData", "values", "setter does not go through format_values", st.where, "raw arrays are stored by reference")
-    fv = p.cls("NumericData").methods["format_values"]
-    last = [a for a in ast.walk(fv.node) if isinstance(a, ast.Assign) and "format_type" in unparse(a.value)]
-    rets = [r for r in ast.walk(fv.node) if isinstance(r, ast.Return) and r.value is not None and unparse(r.value) != fv.params[1] or False]
-    ok = bool(last)
+    fv_fn = nd.methods["format_values"]
+    fv, ffl = _flow(ctx, fv_fn)
+    me = fv_fn.self_name or "self"
+    arg = fv_fn.params[1] if len(fv_fn.params) > 1 else None
+    par = parents(fv.node)
+
+    def under_none_guard(r):
+        """the return sits in the branch taken when the argument is None"""
+        cur, child = par.get(r), r
+        while cur is not None and cur is not fv.node:
+            if isinstance(cur, ast.If) and child in cur.body and isinstance(cur.test, ast.Compare) and len(cur.test.ops) == 1 \
+                    and isinstance(cur.test.ops[0], ast.Is) and isinstance(cur.test.comparators[0], ast.Constant) and cur.test.comparators[0].value is None \
+                    and ffl.is_param(cur.test.left, arg):
+                return True
+            cur, child = par.get(cur), cur
+        return False
+
+    applied, raw = 0, 0
+    for r in [x for x in ast.walk(fv.node) if isinstance(x, ast.Return) and x.value is not None]:
+        for o in ffl.origins_at(r.value):
+            if formats(o, "format_type", ffl, me):
+                applied += 1
+            elif not under_none_guard(r):
+                raw += 1
+    ok = applied > 0 and raw == 0
     res.inst("format_values ends with values = self.format_type(values)", ok=ok)
     if not ok:
-        res.find("NumericData", "format_values", "format_type no longer applied", fv.where, "stored values are neither coerced nor copied")
+        res.find("NumericData", "format_values", "format_type no longer applied", fv_fn.where, "stored values are neither coerced nor copied")
     return res
 
 
